@@ -12,7 +12,7 @@ import sys
 import wave
 from fractions import Fraction
 
-from simkit import sources
+from simkit import seams, sources
 from simkit.tape import mix
 
 from . import common as C
@@ -91,7 +91,7 @@ class Engine:
             else:
                 ops.append([k])
         return {"prop": prop, "fmt": [sw, ch, sr], "length": length,
-                "ops": ops}
+                "ops": ops, "wav_trailer": T.draw(3) == 0}
 
     def run(self, sc, S, prop, want_trace=False):
         from auditok.exceptions import AudioIOError
@@ -119,16 +119,16 @@ class Engine:
 
         tmp = C.scratch_dir()
         old_stdin = sys.stdin
+        seams.bind()
+        seams.reset_captures(None)
+        seams.PROXY_FILES["on"] = True   # file reads go through the seam
         try:
             rawp = os.path.join(tmp, "a.raw")
             with open(rawp, "wb") as f:
                 f.write(data)
             wavp = os.path.join(tmp, "a.wav")
-            with wave.open(wavp, "wb") as w:
-                w.setframerate(sr)
-                w.setsampwidth(sw)
-                w.setnchannels(ch)
-                w.writeframes(data)
+            C.write_wav(wavp, data, sr, sw, ch,
+                        trailer=bool(sc.get("wav_trailer")))
             pipe = sources.SimPipe(data)
             sys.stdin = sources.FakeStdin(pipe)
             srcs = {
@@ -161,6 +161,11 @@ class Engine:
                     m = st[kind]
                     if not m["live"]:
                         continue
+                    if kind == "buffer" and m["open"] and m["cur"] is None \
+                            and name not in ("open", "close", "rewind"):
+                        # unspecified start after a seek on a closed source:
+                        # adopt what the source reports
+                        m["cur"] = s.position
                     if name == "open":
                         if m["ever_closed"] and kind != "buffer":
                             m["live"] = False  # reopen of file/stdin: not judged
@@ -183,7 +188,7 @@ class Engine:
                             m["cur"] = 0
                     elif name == "read":
                         n = op[1]
-                        rem = L - m["cur"]
+                        rem = L - (m["cur"] or 0)
                         if n == "rem":
                             n = rem
                         if (n is None or n < 0) and kind == "stdin":
@@ -236,7 +241,19 @@ class Engine:
                         if want is not None:
                             m["cur"] += take
                             fl["nonempty"] += 1
-                    elif kind != "buffer" or not m["open"]:
+                    elif kind != "buffer":
+                        continue
+                    elif not m["open"]:
+                        if name == "pos" and op[1] in ("in", "end"):
+                            # moving the cursor of a source that is not open:
+                            # where a later read starts is unspecified until
+                            # close() / rewind() / a seek on the open source
+                            p_ = (op[2] * 1009) % (L + 1) \
+                                if op[1] == "in" else L
+                            call(lambda: setattr(s, "position", p_))
+                            m["cur"] = None
+                            fl["seek"] += 1
+                            out["probes"]["seek_while_closed"] = 1
                         continue
                     elif name == "rewind":
                         r = call(s.rewind)
@@ -245,6 +262,8 @@ class Engine:
                                      "C11.4:rewind_raises")
                         m["cur"] = 0
                         fl["rewind"] += 1
+                    elif m["cur"] is None and name in ("getters",):
+                        continue
                     elif name == "getters":
                         p = s.position
                         if p != m["cur"]:
@@ -398,6 +417,7 @@ class Engine:
             return out
         finally:
             sys.stdin = old_stdin
+            seams.PROXY_FILES["on"] = False
             C.rm_scratch(tmp)
 
 
